@@ -146,6 +146,7 @@ inductive Report where
   | limit (item block : Name) (lower upper calcLower calcUpper : Rat)
   | limitSpecial (item block : Name)     -- the rational model cannot follow the `f64` arithmetic (division by zero)
   | groupStructure (name : Name) (cls : Name) (parents : List Name)
+  deriving DecidableEq
 
 def s (x : String) : Name := x.toList
 
